@@ -8,7 +8,7 @@ import hashlib, os, subprocess, shutil, sys, time, fcntl, glob
 
 VERIF = os.path.dirname(os.path.dirname(os.path.abspath(__file__)))
 REPO = os.environ.get("SFVERIF_REPO", "/repo")
-CACHE = os.environ.get("SFVERIF_CACHE", "/var/tmp/sfverif")
+CACHE = os.environ.get("SFVERIF_CACHE", "/var/tmp/sfverif-cache")
 LEAN_DIR = os.path.join(VERIF, "lean")
 HARNESS_DIR = os.path.join(VERIF, "harness")
 GUARD = "LIBSNDFILE_VERIF"
@@ -134,13 +134,13 @@ def ensure_harness(variant="asan"):
     """Return path of the sfh binary linked against the current tree's library."""
     bdir = ensure_lib(variant)
     hh = harness_hash()
-    exe = os.path.join(bdir, "sfh-" + hh)
+    exe = os.path.join(bdir, "harness-" + hh + ".bin")
     with Lock(os.path.join(CACHE, "locks", "h-%s.lock" % os.path.basename(bdir))):
         if os.path.exists(exe):
             os.utime(exe)
             os.utime(bdir)
             return exe
-        for old in glob.glob(os.path.join(bdir, "sfh-*")):
+        for old in glob.glob(os.path.join(bdir, "harness-*.bin")):
             try:
                 if time.time() - os.path.getmtime(old) > 6 * 3600:   # other workers may be using other harness versions
                     os.unlink(old)
